@@ -84,6 +84,7 @@ package client
 //@   atcall[C14.reply_queue_has_room C11.reply_queue_has_room C01.reply_queue_has_room] client.(*RpcMultiplexer).registerHandler : cap(arg2) == 1
 //@   atcall[C05.counter_only_incremented] sync/atomic.AddUint64 : arg1 == 1
 //@   ensures[C05.one_id_per_call C01.one_id_per_call] ncalls("sync/atomic.AddUint64") <= old(ncalls("sync/atomic.AddUint64")) + 1
+//@   ensures[C05.a_call_never_ends_the_connection C09.a_call_never_ends_the_connection C01.a_call_never_ends_the_connection] ncalls("call:client.(*RpcMultiplexer).closeError") == old(ncalls("call:client.(*RpcMultiplexer).closeError"))
 //@   ensures[C06.unary_request_once C01.one_request] ncalls("(types.RpcReadWriter).Write") <= old(ncalls("(types.RpcReadWriter).Write")) + 1
 //@   ensures[C14.released C05.released C13.released C11.released] bound("streamId") ==> !(streamId in rm.handlers)
 //@   ensures[C13.success_only_with_data C03.result_wellformed C09.no_fabricated_success] result.1 == nil ==> result.0 != nil
@@ -138,6 +139,7 @@ package client
 //@   nopanic[C13.nopanic]
 //@   atcall[C06.stream_write_unchanged C02.write_unchanged] (types.RpcReadWriter).Write : arg2 == rpc && arg1 == ctx
 //@   ensures[C02.one_write C06.one_write] ncalls("(types.RpcReadWriter).Write") == old(ncalls("(types.RpcReadWriter).Write")) + 1
+//@   ensures[C05.a_call_never_ends_the_connection C09.a_call_never_ends_the_connection] ncalls("call:client.(*RpcMultiplexer).closeError") == old(ncalls("call:client.(*RpcMultiplexer).closeError"))
 
 // ---------------------------------------------------------------------------------
 // clientStream
@@ -192,7 +194,7 @@ package client
 //@   nopanic[C13.nopanic]
 //@   atcall[C06.reset_only_from_read_loop C07.reset_only_from_read_loop] fnfield:H.client.clientStream.teardown : !arg0
 //@   atcall[C15.envelope_and_header_not_shared C02.envelope_and_header_not_shared] (types.RpcReadWriter).Write : fresh(arg2) && fresh(arg2.Header)
-//@   atcall[C06.message_shape C02.message_shape C07.send_uses_stream_ctx] (types.RpcReadWriter).Write :
+//@   atcall[C06.message_shape C02.message_shape C07.send_uses_stream_ctx C05.message_shape] (types.RpcReadWriter).Write :
 //@     | arg2 != nil && arg2.Id == cs.id && arg2.Header != nil && arg2.Header.Method == cs.method && arg2.Header.Source == cs.sourceAddress && arg2.Header.Destination == cs.destAddress
 //@     | && arg2.Body != nil && arg2.Body.Data == bsContent(body) && arg2.Status == nil && arg2.Trailer == nil && arg2.Reset_ == nil && arg1 == cs.ctx
 //@   atcall[C02.message_bytes] (google.golang.org/grpc/encoding.CodecV2).Marshal : arg1 == m
